@@ -93,6 +93,10 @@ def summary(prog: Program, fi: FuncInfo, fa: Optional[FA] = None) -> Dict[str, o
         n, val = neg_defs[0]
         p = term_to_poly(fa.sym.term(val, n))
         ln = ("call", ("global", "len"), (("param", ps[0]),), ())
+        # torch's ConcatDataset.__len__ is cumulative_sizes[-1] (sibling summary of the installed torch, see below)
+        last = ("sub", ("self", "cumulative_sizes"), ("const", -1))
+        if last in p.atoms():
+            p = p.subst(last, Poly.atom(ln))
         want = Poly.atom(ln) + Poly.atom(("param", idxp))
         conds = fa.conds_at(n)
         under_neg = ("lt", ("param", idxp)) in conds
